@@ -85,7 +85,8 @@ let verdict case impl =
     let ok = parse_keys keys in
     if String.length cons >= 4 && String.sub cons 0 4 = "drop" then begin
       let n = nat_of_int (int_of_string ("0x" ^ String.sub cons 4 (String.length cons - 4))) in
-      if (not ctor_failed) && accept_drop m script n oi ok then "ok"   (* C07_accept_drop_sound *)
+      let model_ctor_failed = match snd (seq_run m script) with OFail _ -> true | _ -> false in
+      if accept_drop m script n oi ok && ctor_failed = model_ctor_failed then "ok"   (* C07_accept_drop_sound *)
       else if not (prop_drop_ok m script oi ok) then
         "viol spec=" ^ show_items (spec_stream (script_pages script)) ^ " " ^ show_keys (spec_requests m script)
       else "diff model=" ^ model_string m script
